@@ -1,5 +1,9 @@
 import Lemmas.Errs
 import Lemmas.ErrsFmt
+import Lemmas.ErrsTrace
+import Lemmas.ErrsWalk
+import Lemmas.ErrsContrast
+import Lemmas.ErrsFrame
 /-! # C11 — error aggregation loses nothing and wrapping preserves identity
 
 Property theorems only.  The executable model is `Model/Errs.lean` (a heap of `*errs.Error` nodes; `Errs.append`,
@@ -395,5 +399,398 @@ example : count (append h0 (.ref 0) args0).1 0 = 5 := by decide
 /-! the aliased call `Append(x, y, x)` contains `x, y, x, y` -/
 example : (resItems (append h0 (.ref 0) [.ref 3, .ref 0])).map (·.msg) = ["x", "y", "x", "y"] := by decide
 example : (aliasItems h0 0 [] [.ref 3, .ref 0]).map (·.msg) = ["y", "x", "y"] := by decide
+
+
+/-! ## The text of the stack trace over real frames (third sentence of the property, `%v` / `%+v` in full)
+
+`Model/ErrsTrace.lean` transcribes `StackTrace` branch for branch over the frames `runtime.CallersFrames` yields (function,
+file, line): the frame loop with its buffer, the filter, the file shortening, the fixed-size buffer of `callStack` (size measured by the harness), the
+`Caused by:` recursion (`stackG`, of which the token rendering `stackC` above is the other instance).  The driver runs
+`detailR` on every line of area `trace`, on frames the harness takes itself with `runtime.Callers` on the source line of the
+constructor call, and the whole text must equal `Detail(trim)` = `%v` / `%+v` of the library.
+
+Vocabulary (`Lemmas/ErrsTrace.lean`): `shown trim P f` — the frame has a function name and, when trimming, is not filtered
+(`shown_iff`); `joinLines` — lines joined by single newlines; `CauseWF h` — the cause of every cell is an older cell
+(`built_causeWF`: true of every heap the API builds, `CloneWithPrefixMessage` included); `msgHead m` — `m` and a newline, or
+nothing when `m` is empty. -/
+
+/-- what `shown` says -/
+theorem shown_iff (trim : Bool) (P : List String) (f : Frame) :
+    shown trim P f = true ↔
+      f.fn ≠ "" ∧ (trim = true →
+        ¬ ((f.fn = "main.main" ∧ f.file = "_testmain.go") ∨ ∃ p ∈ P, p.toList.isPrefixOf f.fn.toList = true)) := by
+  cases trim
+  · simp [shown, frameTrimmed]
+  · simp [shown, frameTrimmed]
+    intro _ _
+    refine ⟨fun h a => h.resolve_left (fun na => na a), fun h => ?_⟩
+    by_cases a : f.fn = "main.main"
+    · exact Or.inr (h a)
+    · exact Or.inl a
+
+/-- **the frame block** (the loop of `StackTrace` with its `if buffer.Len() != 0` newline): one line per shown frame, in
+    the order of the recorded stack, joined by single newlines — nothing before, between or after -/
+theorem frames_text_spec (trim : Bool) (P : List String) (fs : List Frame) :
+    (framesText trim P fs).toList = joinLines ((fs.filter (shown trim P)).map frameLine) := by
+  simp only [framesText, String.toList_ofList]
+  exact framesChars_spec trim P fs
+
+/-- **the stack trace names the function that created the error** (`%v`): when the library's own frames above the creation
+    site are filtered (they carry the prefix `github.com/richardwilkes/toolbox/errs.`), fit the buffer of
+    `callStack` (its size `buf` is measured on every run) with room to spare, and the creating function's frame `c` is shown, the trimmed trace STARTS with
+    `    [c.fn] ` -/
+theorem trace_names_creator (P : List String) (buf : Nat) (lib site : List Frame) (c : Frame)
+    (hlib : ∀ f ∈ lib, shown true P f = false) (hlen : lib.length < buf) (hc : shown true P c = true) :
+    ∃ tail, (framesText true P (recordStack buf lib (c :: site))).toList =
+      "    [".toList ++ c.fn.toList ++ "] ".toList ++ tail := by
+  have hrec : ∃ rest, recordStack buf lib (c :: site) = lib ++ c :: rest := by
+    unfold recordStack
+    rw [List.take_append, List.take_of_length_le (Nat.le_of_lt hlen)]
+    obtain ⟨k, hk⟩ : ∃ k, buf - lib.length = k + 1 := ⟨buf - lib.length - 1, by omega⟩
+    rw [hk, List.take_succ_cons]
+    exact ⟨_, rfl⟩
+  obtain ⟨rest, hrest⟩ := hrec
+  obtain ⟨t1, ht1⟩ := framesChars_first true P lib c rest hlib hc
+  obtain ⟨t2, ht2⟩ := frameLine_names c
+  refine ⟨t2 ++ t1, ?_⟩
+  simp only [framesText, String.toList_ofList, hrest, ht1, ht2, List.append_assoc]
+
+/-- the untrimmed trace (`%+v`) lists EVERY recorded frame that has a function name — the creating function's among them;
+    and the trimmed trace lists every frame that is not filtered -/
+theorem trace_lists_frames (trim : Bool) (P : List String) (fs : List Frame) (f : Frame) (hf : f ∈ fs)
+    (hs : shown trim P f = true) :
+    frameLine f <:+: (framesText trim P fs).toList ∧
+    ∃ tail, frameLine f = "    [".toList ++ f.fn.toList ++ "] ".toList ++ tail := by
+  refine ⟨?_, frameLine_names f⟩
+  simp only [framesText, String.toList_ofList]
+  exact framesChars_infix trim P fs f hf hs
+
+/-- **the `file:line` part of a frame line**: whatever the shortening does (cut before the first dotted directory, drop a
+    trailing `_obj`, drop a directory that repeats the start of the function name), the file name shown is a suffix of the
+    real path and never less than the base name of the file (`baseName`: the part after the last separator) -/
+theorem frame_file_shown (fn file : List Char) :
+    shortenFile fn file <:+ file ∧ baseName file <:+ shortenFile fn file :=
+  shortenFile_spec fn file
+
+/-- `%v` and `%+v` differ only by left-out frames: the frames shown when trimming are among those shown without, in the same
+    order -/
+theorem trimmed_lines_sublist (P : List String) (fs : List Frame) :
+    ((fs.filter (shown true P)).map frameLine).Sublist ((fs.filter (shown false P)).map frameLine) :=
+  (shown_trim_sublist P fs).map frameLine
+
+/-- CONTRAST (why the filter is needed for "naming the function that created it"): without trimming, a constructor's own
+    frame — the first entry of the recorded stack — heads the trace, not the creating function's -/
+theorem untrimmed_starts_in_library (P : List String) (buf : Nat) (l0 : Frame) (lib site : List Frame) (hl0 : l0.fn ≠ "") :
+    ∃ tail, (framesText false P (recordStack (buf + 1) (l0 :: lib) site)).toList =
+      "    [".toList ++ l0.fn.toList ++ "] ".toList ++ tail := by
+  have hrec : ∃ rest, recordStack (buf + 1) (l0 :: lib) site = [] ++ l0 :: rest := by
+    unfold recordStack
+    exact ⟨_, by rw [List.cons_append, List.take_succ_cons]; rfl⟩
+  obtain ⟨rest, hrest⟩ := hrec
+  have hs : shown false P l0 = true := by simp [shown, hl0]
+  obtain ⟨t1, ht1⟩ := framesChars_first false P [] l0 rest (by intro f hf; cases hf) hs
+  obtain ⟨t2, ht2⟩ := frameLine_names l0
+  refine ⟨t2 ++ t1, ?_⟩
+  simp only [framesText, String.toList_ofList, hrest, ht1, ht2, List.append_assoc]
+
+/-- cause links point to older cells in every heap the API can build (`New`, `NewWithCause` of an existing value, `&Error{}`,
+    `Wrap`, `WrapTyped`, `Append`, elements of `WrappedErrors()`, `CloneWithPrefixMessage`) -/
+theorem built_causeWF (h : Heap) (b : Built h) : CauseWF h := built_causeWF_aux b
+
+/-- hence the fuel of the model's `Caused by:` recursion is never exhausted: any two amounts above the cell give the same
+    text (the rendering is a function of the heap alone) -/
+theorem render_fuel_irrelevant (blk : Nat → String) (h : Heap) (hc : CauseWF h) (fuel fuel' id : Nat)
+    (h1 : id < fuel) (h2 : id < fuel') : stackG blk h fuel id = stackG blk h fuel' id :=
+  stackG_fuel blk h hc fuel fuel' id h1 h2
+
+/-- **…and any causes** (`%v` with `trim = true`, `%+v` with `trim = false`): the `Detail` of an error whose cause is an
+    `*Error` (and which is not a mere wrapper) is its message, its own frame block, the marker, and then the WHOLE `Detail` of
+    the cause — recursively, so every cause down the chain is rendered with its message and its own stack -/
+theorem detail_renders_cause (trim : Bool) (P : List String) (F : FrameTab) (h : Heap) (hc : CauseWF h) (id c : Nat)
+    (n : ENode) (hn : h[id]? = some n) (hcz : n.cause = .ref c) (hw : n.wrapped = false) :
+    detailR trim P F h id =
+      msgHead (message h id) ++ framesText trim P (framesOf F id) ++ "\n  Caused by: " ++ detailR trim P F h c := by
+  unfold detailR stackR
+  rw [stackG_ref_cause _ h hc id c n hn hcz hw, detailOf_causedBy]
+
+/-- the same for the token rendering `fmtV` that the stateful area compares on every `render` line -/
+theorem fmtV_renders_cause (h : Heap) (T : Toks) (hc : CauseWF h) (id c : Nat) (n : ENode) (hn : h[id]? = some n)
+    (hcz : n.cause = .ref c) (hw : n.wrapped = false) :
+    fmtV h T id = msgHead (message h id) ++ tokText (tokOf T id) ++ "\n  Caused by: " ++ fmtV h T c := by
+  unfold fmtV
+  rw [stackC_eq_stackG, stackC_eq_stackG, stackG_ref_cause _ h hc id c n hn hcz hw, detailOf_causedBy]
+
+/-- a foreign cause (not a `*Error`) is rendered by its `Error()` text after the marker; a wrapper (`Wrap`, `WrapTyped`, a
+    plain error inside `Append`) and an error without a cause render their own frame block only -/
+theorem detail_foreign_or_no_cause (trim : Bool) (P : List String) (F : FrameTab) (h : Heap) (id : Nat) (n : ENode)
+    (hn : h[id]? = some n) :
+    ((∀ c, n.cause ≠ .ref c) → n.cause ≠ .nilIface → n.wrapped = false →
+      detailR trim P F h id =
+        msgHead (message h id) ++ framesText trim P (framesOf F id) ++ "\n  Caused by: " ++ errorText n.cause) ∧
+    (n.cause = .nilIface ∨ n.wrapped = true →
+      detailR trim P F h id = detailOf (message h id) (framesText trim P (framesOf F id))) := by
+  refine ⟨?_, ?_⟩
+  · intro h1 h2 h3
+    unfold detailR stackR
+    rw [stackG_foreign_cause _ h h.size id n hn h1 h2 h3, detailOf_causedBy]
+  · intro h1
+    unfold detailR stackR
+    rw [stackG_no_cause _ h h.size id n hn h1]
+
+/-- **every non-empty error renders its message for `%v`/`%+v`**: a `Detail` starts with the message -/
+theorem detail_starts_with_message (trim : Bool) (P : List String) (F : FrameTab) (h : Heap) (id : Nat)
+    (hm : message h id ≠ "") : ∃ rest, detailR trim P F h id = message h id ++ rest :=
+  detailOf_msg _ _ hm
+
+/-! non-vacuity: a recorded stack as `errs.Newf` leaves it (two library frames, the creating function, its caller, the
+    runtime), the default prefixes -/
+def P0 : List String := ["runtime.", "testing.", "github.com/richardwilkes/toolbox/errs."]
+def lib0 : List Frame := [{ fn := "github.com/richardwilkes/toolbox/errs.New", file := "/repo/errs/errors.go", line := 115 },
+  { fn := "github.com/richardwilkes/toolbox/errs.Newf", file := "/repo/errs/errors.go", line := 121 }]
+def mk0 : Frame := { fn := "main.mk", file := "/src/main.lp/_obj/f.go", line := 20 }
+def site0 : List Frame := [{ fn := "main.main", file := "_testmain.go", line := 1 }, { fn := "runtime.goexit", file := "/go/asm.s", line := 9 }]
+
+example : ∀ f ∈ lib0, shown true P0 f = false := by decide
+example : shown true P0 mk0 = true := by decide
+example : framesChars true P0 (recordStack 512 lib0 (mk0 :: site0)) = "    [main.mk] main.lp/_obj/f.go:20".toList := by decide
+example : (fs0 : List Frame) → fs0 = recordStack 512 lib0 (mk0 :: site0) → ((fs0.filter (shown false P0)).length = 5) := by
+  intro fs0 h; subst h; decide
+/-! a heap with a cause chain: cell 1 is caused by cell 0 -/
+def hc0 : Heap := #[{ msg := "inner", hasStack := true }, { msg := "outer", hasStack := true, cause := .ref 0 }]
+example : CauseWF hc0 := built_causeWF _ (Built.newWithCause _ "outer" (.ref 0) (Built.new _ "inner" Built.empty) (by intro id h; cases h; decide))
+
+
+/-! non-vacuity of `detail_renders_cause`: the whole `%v` text of an error with a cause, computed by the model from the two
+    recorded stacks (the creating function's frame heads both blocks; library, `main.main`/`_testmain.go` and runtime frames
+    are left out), and the instance of the theorem at it -/
+def F0 : FrameTab := #[recordStack 512 [] (mk0 :: site0), recordStack 512 lib0 (mk0 :: site0)]
+example : detailR true P0 F0 hc0 1 =
+    "outer\n    [main.mk] main.lp/_obj/f.go:20\n  Caused by: inner\n    [main.mk] main.lp/_obj/f.go:20" := by decide
+example : detailR true P0 F0 hc0 1 =
+    msgHead (message hc0 1) ++ framesText true P0 (framesOf F0 1) ++ "\n  Caused by: " ++ detailR true P0 F0 hc0 0 :=
+  detail_renders_cause true P0 F0 hc0 (built_causeWF _ (Built.newWithCause _ "outer" (.ref 0)
+    (Built.new _ "inner" Built.empty) (by intro id h; cases h; decide))) 1 0 _ rfl rfl rfl
+
+/-! ## `errors.Is` / `errors.As`, `Recovery`, `Log*` (`Model/ErrsWalk.lean`)
+
+The driver answers the ops `is`, `as`, `recover` and `log` of the stateful area with `errorsIs`, `asTarget`, `recoveryF` and
+`logRecordF`; the harness runs `errors.Is`, `errors.As`, `errs.Recovery` under a real panic and the ten `errs.Log*` entry
+points against a capturing slog handler. -/
+
+/-- the token-carrying `Recovery` and `Log*` the driver runs compute the heap and the result of the plain ones -/
+theorem recoveryF_logF_are_plain (s : FHeap) (f : Nat) (msg : String) (p : PanicVal) (b : Bool) (v : Val) :
+    ((recoveryF s f msg p b).1.h = (recovery s.h msg p b).1 ∧ (recoveryF s f msg p b).2 = (recovery s.h msg p b).2) ∧
+    ((logRecordF s f v).1.h = (logRecord s.h v).1 ∧ (logRecordF s f v).2 = (logRecord s.h v).2) :=
+  ⟨recoveryF_heap s f msg p b, logRecordF_heap s f v⟩
+
+/-- **`errors.Is` still reaches the cause** through `Wrap`: for a non-nil error `v` of a comparable type that contains no
+    `*Error`, `errors.Is(Wrap(v), v)` holds, and against any other target the walk from the wrapper continues exactly like the
+    walk from `v` (the wrapper adds one step and hides nothing) -/
+theorem wrap_is_reaches_cause (h : Heap) (cmp : Val → Bool) (v : Val) (hv : isNil v = false) (ha : asError v = false)
+    (hc : cmp v = true) :
+    errorsIs (wrap h v).1 cmp (wrap h v).2 v = .found ∧
+    ∀ t fuel, t ≠ .ref h.size →
+      isWalk (wrap h v).1 cmp t (fuel + 1) (wrap h v).2 = isWalk (wrap h v).1 cmp t fuel v := by
+  have hw : wrap h v = (h.push (wrapperNode v), .ref h.size) := by simp [wrap, hv, ha]
+  have hv0 : v ≠ .nilIface := by intro e; rw [e] at hv; simp [isNil] at hv
+  have hvr : v ≠ .ref h.size := by intro e; rw [e] at ha; simp [asError] at ha
+  rw [hw]
+  refine ⟨errorsIs_push_cause h cmp _ v rfl hv0 hvr hc, ?_⟩
+  intro t fuel ht
+  rw [isWalk_ref_step _ _ _ _ _ ht]
+  simp [unwrap, wrapperNode]
+
+/-- the same through `WrapTyped` (any non-nil value that is not itself a `*Error`) and through `NewWithCause` (any non-nil
+    cause that exists already) -/
+theorem wrapTyped_newWithCause_is_reach (h : Heap) (cmp : Val → Bool) (m : String) (v : Val) (hv : isNil v = false)
+    (hc : cmp v = true) :
+    ((∀ id, v ≠ .ref id) → errorsIs (wrapTyped h v).1 cmp (wrapTyped h v).2 v = .found) ∧
+    (v ≠ .ref h.size → errorsIs (newWithCause h m v).1 cmp (newWithCause h m v).2 v = .found) := by
+  have hv0 : v ≠ .nilIface := by intro e; rw [e] at hv; simp [isNil] at hv
+  refine ⟨?_, ?_⟩
+  · intro hr
+    rw [(wrapTyped_reaches_cause h v hv hr).1]
+    exact errorsIs_push_cause h cmp _ v rfl hv0 (hr h.size) hc
+  · intro hr
+    exact errorsIs_push_cause h cmp _ v (by simp [hv]) hv0 hr hc
+
+/-- **`errors.As` still reaches**: `errors.As(err, &errorPtr)` succeeds exactly when `Wrap` passes `err` through, what it
+    stores is a `*Error` of the chain, and on the result of `Wrap`/`WrapTyped` of a value without an `*Error` inside it finds
+    the new wrapper itself -/
+theorem as_finds_error (h : Heap) (v : Val) :
+    (asError v = true ↔ asTarget v ≠ .nilIface) ∧
+    (asTarget v = .nilIface ∨ asTarget v = .typedNil ∨ ∃ id, asTarget v = .ref id) ∧
+    (isNil v = false → asError v = false → asTarget (wrap h v).2 = .ref h.size) := by
+  refine ⟨asError_iff_asTarget v, asTarget_kind v, ?_⟩
+  intro hv ha
+  simp [wrap, hv, ha, asTarget]
+
+/-- **`Recovery`** (errs/recovery.go): with a handler and a panic whose value is an `error`, the handler receives ONE new
+    error with the fixed message `recoveryMsg` (the same for every panic; read off the real code on every run) whose `Unwrap` is the panic value (a typed nil is dropped, so the result
+    can be rendered) — `errors.Is` reaches it — and no existing error changes; without a panic, or without a handler,
+    nothing is created and nothing is called -/
+theorem recovery_hands_cause (h : Heap) (recoveryMsg : String) (cmp : Val → Bool) (v : Val) (b : Bool) (p : PanicVal) :
+    (recovery h recoveryMsg (.err v) true).2 = some (.ref h.size) ∧
+    unwrap (recovery h recoveryMsg (.err v) true).1 (.ref h.size) = (if isNil v then .nilIface else v) ∧
+    message (recovery h recoveryMsg (.err v) true).1 h.size = recoveryMsg ∧
+    (∀ i, i < h.size → (recovery h recoveryMsg (.err v) true).1[i]? = h[i]?) ∧
+    (isNil v = false → v ≠ .ref h.size → cmp v = true →
+      errorsIs (recovery h recoveryMsg (.err v) true).1 cmp (.ref h.size) v = .found) ∧
+    recovery h recoveryMsg .none b = (h, none) ∧ recovery h recoveryMsg p false = (h, none) := by
+  have hN := newWithCause_cause h recoveryMsg v
+  refine ⟨rfl, hN.1, hN.2.1, hN.2.2, ?_, rfl, ?_⟩
+  · intro hv hr hc
+    have hv0 : v ≠ .nilIface := by intro e; rw [e] at hv; simp [isNil] at hv
+    exact errorsIs_push_cause h cmp _ v (by simp [hv]) hv0 hr hc
+  · cases p <;> rfl
+
+/-- a panic with a string: the handler's error is caused by a new `*Error` carrying the text, created first (so its stack
+    is the older capture) -/
+theorem recovery_string (h : Heap) (recoveryMsg m : String) :
+    (recovery h recoveryMsg (.str m) true).2 = some (.ref (h.size + 1)) ∧
+    unwrap (recovery h recoveryMsg (.str m) true).1 (.ref (h.size + 1)) = .ref h.size ∧
+    message (recovery h recoveryMsg (.str m) true).1 h.size = m ∧
+    message (recovery h recoveryMsg (.str m) true).1 (h.size + 1) = recoveryMsg ∧
+    (∀ i, i < h.size → (recovery h recoveryMsg (.str m) true).1[i]? = h[i]?) := by
+  have hN := newWithCause_cause (h.push { msg := m, hasStack := true }) recoveryMsg (.ref h.size)
+  have hsz : (h.push ({ msg := m, hasStack := true } : ENode)).size = h.size + 1 := by simp
+  have hrec : recovery h recoveryMsg (.str m) true =
+      ((newWithCause (h.push { msg := m, hasStack := true }) recoveryMsg (.ref h.size)).1,
+        some (newWithCause (h.push { msg := m, hasStack := true }) recoveryMsg (.ref h.size)).2) := rfl
+  have h2 : (newWithCause (h.push { msg := m, hasStack := true }) recoveryMsg (.ref h.size)).2 = .ref (h.size + 1) := by
+    simp [newWithCause]
+  have hcell : (newWithCause (h.push { msg := m, hasStack := true }) recoveryMsg (.ref h.size)).1[h.size]? =
+      some { msg := m, hasStack := true } := by
+    rw [hN.2.2 h.size (by omega)]; simp
+  rw [hrec]
+  refine ⟨by rw [h2], ?_, ?_, ?_, ?_⟩
+  · have := hN.1; rw [h2] at this; simpa [isNil] using this
+  · simp only [message, nextOf, msgOf, hcell]; rfl
+  · have := hN.2.1; rw [hsz] at this; exact this
+  · intro i hi
+    rw [hN.2.2 i (by omega)]
+    simp [Array.getElem?_push, Nat.ne_of_lt hi]
+
+/-- **`Log*`** (errs/log.go, all ten entry points go through `WrapTyped` and `createRecord`): a nil or typed-nil error
+    gives a record with an empty message and no `stack_trace` attribute; an `*Error` is logged AS IS (same pointer behind
+    the attribute, its `Message()` as the record's message, nothing allocated); a foreign error is wrapped first, and the
+    wrapper carries its text and unwraps to it -/
+theorem log_record_spec (h : Heap) (v : Val) :
+    (isNil v = true → logRecord h v = (h, "", none)) ∧
+    (∀ id, v = .ref id → logRecord h v = (h, message h id, some (.ref id))) ∧
+    (isNil v = false → (∀ id, v ≠ .ref id) →
+      logRecord h v = (h.push (wrapperNode v), errorText v, some (.ref h.size)) ∧
+      unwrap (logRecord h v).1 (.ref h.size) = v) := by
+  refine ⟨?_, ?_, ?_⟩
+  · intro hv; simp [logRecord, wrapTyped, hv]
+  · intro id hid; subst hid; simp [logRecord, wrapTyped, isNil]
+  · intro hv hr
+    obtain ⟨hw, hu, hm⟩ := wrapTyped_reaches_cause h v hv hr
+    have h2 : (wrapTyped h v).2 = .ref h.size := by rw [hw]
+    have h1 : (wrapTyped h v).1 = h.push (wrapperNode v) := by rw [hw]
+    refine ⟨?_, ?_⟩
+    · unfold logRecord; rw [h2]; simp only []; rw [← h1, hm]
+    · unfold logRecord; rw [h2]; simp only []; rw [h2] at hu; exact hu
+
+/-! non-vacuity: `errors.Is(Wrap(errors.New("p")), thatError)`; a foreign wrapper around a nil `*Error` makes the walk
+    dereference nil (observed on the real code as well: corpus `errs.walk.ops`) -/
+example : errorsIs (wrap #[] (.plain 0 "p")).1 (fun _ => true) (wrap #[] (.plain 0 "p")).2 (.plain 0 "p") = .found := by decide
+example : errorsIs #[] (fun _ => true) (.fwrap 1 "w" .typedNil) (.plain 0 "p") = .panics := by decide
+example : (recovery #[] "recovered" (.err (.plain 0 "p")) true).2 = some (.ref 0) := by decide
+
+
+/-! ## Contrast: `Append` without one of its mechanisms violates the statement (`Lemmas/ErrsContrast.lean`) -/
+
+/-- CONTRAST to `append_items`: without the walk to the end of what was just linked (the cursor of the code before fix
+    e5d8074) the conclusion of `append_items` FAILS under exactly its hypotheses — `Append(x, {a1,a2}, …, y)` loses `a2` -/
+theorem append_without_cursor_walk_loses_errors :
+    ∃ (h : Heap) (id : Nat) (args : List Val), WF h ∧ (∀ i, Val.ref i ∈ Val.ref id :: args → i < h.size) ∧
+      NoAlias h (.ref id) args ∧ isEmpty h id = false ∧
+      resItems (appendNoWalk h id args) ≠ argItems h (.ref id) ++ args.flatMap (argItems h) ∧
+      resItems (append h (.ref id) args) = argItems h (.ref id) ++ args.flatMap (argItems h) := by
+  have hwf : WF h0 := wf_of_wfb h0 (by decide)
+  have hids : ∀ i, Val.ref i ∈ Val.ref 0 :: args0 → i < h0.size := by
+    intro id hid; simp [args0] at hid; rcases hid with rfl | rfl | rfl <;> decide
+  have hna : NoAlias h0 (.ref 0) args0 := by
+    intro id hacc id' hid'
+    have : id = 0 := by simpa [accOf, args0] using hacc.symm
+    subst this
+    simp [restOf, args0] at hid'
+    rcases hid' with rfl | rfl <;> decide
+  exact ⟨h0, 0, args0, hwf, hids, hna, by decide, by decide, append_items h0 (.ref 0) args0 hwf hids hna⟩
+
+/-- CONTRAST to `append_args_unchanged`: without the cell-by-cell copy of `*Error` arguments the first argument's chain
+    GROWS by the later arguments (it is no longer "left unchanged"), while with the copy it stays as it was -/
+theorem append_without_copy_changes_argument :
+    ∃ (h : Heap) (id id' : Nat) (args : List Val), WF h ∧ (∀ i, Val.ref i ∈ Val.ref id :: args → i < h.size) ∧
+      NoAlias h (.ref id) args ∧ Val.ref id' ∈ args ∧
+      items (appendNoCopy h id args).1 id' ≠ items h id' ∧
+      items (append h (.ref id) args).1 id' = items h id' := by
+  have hwf : WF h0 := wf_of_wfb h0 (by decide)
+  have hids : ∀ i, Val.ref i ∈ Val.ref 0 :: args0 → i < h0.size := by
+    intro id hid; simp [args0] at hid; rcases hid with rfl | rfl | rfl <;> decide
+  have hna : NoAlias h0 (.ref 0) args0 := by
+    intro id hacc id' hid'
+    have : id = 0 := by simpa [accOf, args0] using hacc.symm
+    subst this
+    simp [restOf, args0] at hid'
+    rcases hid' with rfl | rfl <;> decide
+  have hmem : Val.ref 1 ∈ args0 := by simp [args0]
+  exact ⟨h0, 0, 1, args0, hwf, hids, hna, hmem, by decide,
+    (append_args_unchanged h0 (.ref 0) args0 hwf hids hna 1 hmem).2.1⟩
+
+
+/-! ## Corollaries that make the hypotheses concrete -/
+
+/-- with the library's package prefix among the prefixes to filter (it is in the default `RuntimePrefixesToFilter`), every
+    frame of a library function is left out of a trimmed trace -/
+theorem library_frames_hidden (P : List String) (pkg : String) (hp : pkg ∈ P) (f : Frame)
+    (hf : pkg.toList.isPrefixOf f.fn.toList = true) : shown true P f = false := by
+  cases hs : shown true P f with
+  | false => rfl
+  | true =>
+    have := ((shown_iff true P f).mp hs).2 rfl
+    exact absurd (Or.inr ⟨pkg, hp, hf⟩) this
+
+/-- hence: an error created by a function `c` outside the filtered packages through ANY chain of library functions shorter
+    than the buffer renders, for `%v`, a trace that starts with `    [c] ` -/
+theorem trace_names_creator_default (P : List String) (pkg : String) (hp : pkg ∈ P) (buf : Nat) (lib site : List Frame)
+    (c : Frame) (hlib : ∀ f ∈ lib, pkg.toList.isPrefixOf f.fn.toList = true) (hlen : lib.length < buf)
+    (hc : shown true P c = true) :
+    ∃ tail, (framesText true P (recordStack buf lib (c :: site))).toList =
+      "    [".toList ++ c.fn.toList ++ "] ".toList ++ tail :=
+  trace_names_creator P buf lib site c (fun f hf => library_frames_hidden P pkg hp f (hlib f hf)) hlen hc
+
+/-- the two renderings the driver prints — `fmtV` on every `render` line of the stateful area (stack = token) and `detailR`
+    on every line of area `trace` (stack = real frames) — are ONE recursion (`stackG`) at two block functions: what the
+    trace area validates about the `Caused by:` structure is what the stateful area uses -/
+theorem fmtV_is_generic (h : Heap) (T : Toks) (id : Nat) :
+    fmtV h T id = detailOf (message h id) (stackG (fun i => tokText (tokOf T i)) h (h.size + 1) id) := by
+  unfold fmtV
+  rw [stackC_eq_stackG]
+
+example : shown true P0 { fn := "github.com/richardwilkes/toolbox/errs.New", file := "x.go", line := 1 } = false :=
+  library_frames_hidden P0 "github.com/richardwilkes/toolbox/errs." (by decide) _ (by decide)
+
+
+/-! ## `Append` writes nothing but links (`Lemmas/ErrsFrame.lean`) -/
+
+/-- **Append writes nothing but `next` links** — on ANY heap, with ANY aliasing between accumulator and arguments, with no
+    hypothesis at all (no `WF`, no `NoAlias`): every cell that existed before still exists with the same message, cause,
+    stack and wrapped flag.  So what `Unwrap`, `errors.Is` / `errors.As`, the recorded stack and the message of a single
+    error show of ANY existing error — appended argument or not — is what they showed before ("leaves the contents of the
+    appended arguments unchanged", here also for the aliased calls that `append_args_unchanged` excludes) -/
+theorem append_only_links (h : Heap) (acc : Val) (args : List Val) :
+    h.size ≤ (append h acc args).1.size ∧
+    ∀ (i : Nat) (n : ENode), h[i]? = some n → ∃ m, (append h acc args).1[i]? = some m ∧
+      n.msg = m.msg ∧ n.cause = m.cause ∧ n.hasStack = m.hasStack ∧ n.wrapped = m.wrapped :=
+  onlyLinks_appendFull h acc args
+
+/-- hence `Unwrap` of every existing error is the same after any `Append` -/
+theorem append_keeps_unwrap (h : Heap) (acc : Val) (args : List Val) (id : Nat) (hid : id < h.size) :
+    unwrap (append h acc args).1 (.ref id) = unwrap h (.ref id) := by
+  have hn : h[id]? = some h[id] := Array.getElem?_eq_getElem hid
+  obtain ⟨m, hm, _, hc, _, _⟩ := (append_only_links h acc args).2 id h[id] hn
+  simp only [unwrap, hm, hn, hc]
 
 end C11
